@@ -54,24 +54,24 @@ for _k in CLAIMED: CLAIMED[_k].setdefault("note", COMMON_NOTE)
 # large-scope, low-entropy families added after the seed rounds aimed beyond the small scope (DESIGN 5.14)
 LARGE = {
  "C01": " Beyond the small scope (DESIGN 5.14): 35 structured shapes of 40..300 elements x windows up to 301; narrow element types at magnitude (i32/i64/f32 with +-50001, +-2^30). Configuration families (DESIGN 5.15): the value law on every input backend configuration (wrapped rings, strided / reversed views, chunked columns); float nulls written as other NaN kinds. Structured series of 1030 / 2100 elements. Owned ndarray arrays in non-standard layouts among the back ends.",
- "C02": " Beyond the small scope: lengths 40..4100 with windows 1..257 and len-1..len+3 on a reduced back-end set. Configuration families (DESIGN 5.15): every driver writing into caller buffers in non-canonical layouts (wrapped rings, strided / reversed views). Unbounded windows (usize::MAX, 2^63 ...) on every driver. The slice drivers on the typed Polars columns (String, Int64, Float32, Boolean) under every chunking. A second series longer than the first in the two-series drivers. Option series with every placement of nulls (lengths <= 4) through every driver.",
+ "C02": " Beyond the small scope: lengths 40..4100 with windows 1..257 and len-1..len+3 on a reduced back-end set. Configuration families (DESIGN 5.15): every driver writing into caller buffers in non-canonical layouts (wrapped rings, strided / reversed views). Unbounded windows (usize::MAX, 2^63 ...) on every driver. The slice drivers on the typed Polars columns (String, Int64, Float32, Boolean) under every chunking. A second series longer than the first in the two-series drivers. Option series with every placement of nulls (lengths <= 4) through every driver. The lazy window iterator consumed with skip / nth / step_by on every back end.",
  "C03": " Beyond the small scope: structured shapes of 40..300 elements x windows up to 301; infinities as values; the translation relation on i64 values around +-2^60. Configuration families (DESIGN 5.15): the value law on every input backend; plateaus after non-dyadic history (normalisation undefined); NaN kinds. Structured series of 1030 / 2100 elements.",
  "C04": " Beyond the small scope: structured pairs of 40..270 elements x windows up to 257. Configuration families (DESIGN 5.15): the value law on every input backend; NaN kinds. Narrow element types at magnitude in both roles of the two-series statistics (pairs-narrow, trend-narrow). The second series in every backend configuration; structured pairs of 1030 / 2100 elements.",
  "C05": " Beyond the small scope: structured shapes / pairs of 40..300 elements x windows up to 301; flat stretches of non-dyadic values (mask only). NaN kinds (DESIGN 5.15). Integer orders of the fractional difference. Structured series of 1030 / 2100 elements. Infinities as observations in the extrema / rank family on f64, f32 and Option<f32> (mask-infinite).",
- "C06": " Beyond the small scope: prefix law and window-only relation on structured series of 40..270 elements, windows 9..257. Configuration families (DESIGN 5.15): the window-only relation on every input backend. Integer orders of the fractional difference. The slice / index drivers themselves under the prefix law on every input back end incl. option views (driver-prefix).",
- "C07": " Beyond the small scope: the matrix on structured series of 24 / 40 elements with windows 9, 16, 17; Datetime / String / Int32 / Int64 / Float32 / Boolean Polars columns under every chunking. Configuration families (DESIGN 5.15): caller buffers in non-canonical layouts for every built-in statistic, the user-function drivers and lazy mapping results. Every container also as the second series of the two-series functions. Owned ndarray arrays in non-standard layouts (slice_move, invert_axis; behind Arc and .opt()) as input back ends.",
- "C08": " Beyond the small scope: the encoding relation on structured series of 24..70 elements and on an alphabet with +-inf; the null-skipping fold primitives themselves. NaN kinds (DESIGN 5.4 / 5.15): encoding and transparency relations with sign-bit, payload and mixed NaNs. Null transparency of the position-independent rolling statistics (window with its nulls deleted). Rank transparency (vrank absolute / percentile). The option view .opt() as a third encoding (optview). The rolling rank in the rolling transparency relation.",
+ "C06": " Beyond the small scope: prefix law and window-only relation on structured series of 40..270 elements, windows 9..257. Configuration families (DESIGN 5.15): the window-only relation on every input backend. Integer orders of the fractional difference. The slice / index drivers themselves under the prefix law on every input back end incl. option views (driver-prefix). Both zeros: the reported extreme is bit for bit independent of the pre-window history.",
+ "C07": " Beyond the small scope: the matrix on structured series of 24 / 40 elements with windows 9, 16, 17; Datetime / String / Int32 / Int64 / Float32 / Boolean Polars columns under every chunking. Configuration families (DESIGN 5.15): caller buffers in non-canonical layouts for every built-in statistic, the user-function drivers and lazy mapping results. Every container also as the second series of the two-series functions. Owned ndarray arrays in non-standard layouts (slice_move, invert_axis; behind Arc and .opt()) as input back ends. The error path of fallible collection in every output container.",
+ "C08": " Beyond the small scope: the encoding relation on structured series of 24..70 elements and on an alphabet with +-inf; the null-skipping fold primitives themselves. NaN kinds (DESIGN 5.4 / 5.15): encoding and transparency relations with sign-bit, payload and mixed NaNs. Null transparency of the position-independent rolling statistics (window with its nulls deleted). Rank transparency (vrank absolute / percentile). The option view .opt() as a third encoding (optview). The rolling rank in the rolling transparency relation. The rolling normalisations in the transparency relation.",
  "C09": " Beyond the small scope: sources and depth-1/2 pipelines on series of 1030 / 4100 elements; non-dyadic range steps (hint law); typed Polars columns; stateright cross-check of the next / next_back machine. Also vcut (fallible items) as a source, the std scan adaptor, and TrustedLen::len() == items still to come in every state. declared-trusted: about 40 std adaptor chains over sources of unknown length, probed at compile time for a TrustedLen declaration; whatever is declared must be exact in every state.",
- "C10": " Beyond the small scope: structured series of 40 / 270 elements with windows 255..257; 'expanding window' requests usize::MAX, 2^63. Configuration families (DESIGN 5.15): every entry point writing into strided / reversed / wrapped caller buffers with an audit of the whole backing storage (every slot of the view written, no cell outside it touched). Second series longer by up to 3; unbounded windows in the caller-layout family. A call that ignores the buffer it was handed (returns a container) is a fault. A one-element result broadcast into audited caller buffers of 2..4 slots in every layout.",
+ "C10": " Beyond the small scope: structured series of 40 / 270 elements with windows 255..257; 'expanding window' requests usize::MAX, 2^63. Configuration families (DESIGN 5.15): every entry point writing into strided / reversed / wrapped caller buffers with an audit of the whole backing storage (every slot of the view written, no cell outside it touched). Second series longer by up to 3; unbounded windows in the caller-layout family. A call that ignores the buffer it was handed (returns a container) is a fault. A one-element result broadcast into audited caller buffers of 2..4 slots in every layout. The partition iterators through a trusted collector into the instrumented container.",
  "C11": " Beyond the small scope: structured series of 17..4100 elements; narrow element types at magnitude (+-50001). Also infinite observations (series of nothing but infinities included) for counts, positions and extrema; NaN kinds. Iterator sources of unknown announced length; i32 series whose sum leaves the type. The vcorr convenience wrapper (omitted min_periods and 0..=len+1). The masked sum / mean with infinities. Constant series of non-dyadic values: variance / standard deviation never negative, never null (numeric-constant).",
- "C12": " Beyond the small scope: structured series and modular permutations of 17..64 elements; infinities as values; power-of-two scaling relation. Also ranks and partitions of ordered non-numeric element types (DateTime, Time, TimeDelta, String, Option<i64>, Option<bool>); NaN kinds. Unsigned element types; i32 neighbours further apart than the type's MAX. Durations 300 ns apart and durations beyond the i64 nanosecond count.",
- "C13": " Beyond the small scope: structured series of 24..130 elements with every lag of the band; power-of-two scaling relation for vdiff / vpct_change. NaN kinds (DESIGN 5.15). Infinities in every element-wise operation. vclip on TimeDelta / Option<TimeDelta> with plain and month-bearing elements and bounds (maps-durations).",
- "C14": " Beyond the small scope: 17..257 consecutive edges with values on / between every edge and the type extremes / infinities; runs of 255..257 equal values; translation relation on i64 around +-2^60. Also labels that are nulls themselves (NaN / None / \"None\") at every position. Sorted runs of TimeDelta values, incl. durations beyond the i64 nanosecond count (unique-durations). Value sequences with repeats, misses and nulls in every order (cut-sequences): items after an Err are still right.",
+ "C12": " Beyond the small scope: structured series and modular permutations of 17..64 elements; infinities as values; power-of-two scaling relation. Also ranks and partitions of ordered non-numeric element types (DateTime, Time, TimeDelta, String, Option<i64>, Option<bool>); NaN kinds. Unsigned element types; i32 neighbours further apart than the type's MAX. Durations 300 ns apart and durations beyond the i64 nanosecond count. Percentile of score on 64-bit integers beyond 2^53 (translation relation).",
+ "C13": " Beyond the small scope: structured series of 24..130 elements with every lag of the band; power-of-two scaling relation for vdiff / vpct_change. NaN kinds (DESIGN 5.15). Infinities in every element-wise operation. vclip on TimeDelta / Option<TimeDelta> with plain and month-bearing elements and bounds (maps-durations). Every lazy result advanced by nth(j): items and announced length afterwards.",
+ "C14": " Beyond the small scope: 17..257 consecutive edges with values on / between every edge and the type extremes / infinities; runs of 255..257 equal values; translation relation on i64 around +-2^60. Also labels that are nulls themselves (NaN / None / \"None\") at every position. Sorted runs of TimeDelta values, incl. durations beyond the i64 nanosecond count (unique-durations). Value sequences with repeats, misses and nulls in every order (cut-sequences): items after an Err are still right. Labels of the time types, strings, optional bools / indices incl. the type's default value as a label.",
  "C15": " Also IsNone for Vec<T>, order laws on every time type, i64 casts of the time types, durations of ~300 years. Also law L9: inner_cast / into_cast keep the value and keep a null a null (ten Self types x eight value types). Law L10: the accessor family of the Number trait against `as`. Both signs of NaN in the float value lists. Law L11: equality of durations is the identity of their fields; month-bearing, sub-microsecond and very long durations under the comparator laws.",
- "C16": " Also the Polars AnyValue bridge (3 x 3 unit pairs on every lattice timestamp); stateright cross-check. Also every optional numeric target (and f32 / f64) of a date-time in every state: null iff NaT. The deprecated to_cr and the TryFrom conversion next to as_cr in every state.",
+ "C16": " Also the Polars AnyValue bridge (3 x 3 unit pairs on every lattice timestamp); stateright cross-check. Also every optional numeric target (and f32 / f64) of a date-time in every state: null iff NaT. The deprecated to_cr and the TryFrom conversion next to as_cr in every state. The naive calendar routes (NaiveDateTime, Option<NaiveDateTime>, NaiveDate) in every state.",
  "C17": " Also integer scaling as repeated addition, Timelike setters, truncation to every grain count 1..60 (and more) in every unit ns..h. Also the difference of every pair of grid instants (up to 583 years apart) in every unit, exact to the digit. Durations with a month count and a fixed part applied to instants (datetime+-mixed).",
  "C18": " Also duration words of 17..300 terms, zero-padded numerals, FromStr / From<&str> / Cast routes. Also 16 caller-made formats (composite, padding-modified, 12-hour, day-of-year, compact, unix-timestamp specifiers) written by strftime(Some(fmt)) and parsed back with the same format. The edges of the nanosecond range (first / last instants, first partial second). Every single-character edit (characters of 1..4 bytes) of well-formed time-of-day texts with fractions of 0..12 digits and of duration texts. Signed and five / six digit years in the coarser units through the default formatter and parser.",
- "C19": " Beyond the small scope: progressions, linspaces, collections and buffer writes of 255..1000 elements, starts of magnitude 2^40, steps of 10^10, ends a hair past a grid point; the checked UninitVec::set. Also the same sequence through all 19 iterator shapes the library declares trusted: len / is_empty, collectors, writes into every container and caller-buffer layout. Omitted against explicit start / step of range, omitted start of linspace. A stride-ignoring slot writer shows as a wrong result in the strided / reversed layouts (room behind the lane). The collectors on ten element types (collectors-typed), the optional collector on types without a null.",
+ "C19": " Beyond the small scope: progressions, linspaces, collections and buffer writes of 255..1000 elements, starts of magnitude 2^40, steps of 10^10, ends a hair past a grid point; the checked UninitVec::set. Also the same sequence through all 19 iterator shapes the library declares trusted: len / is_empty, collectors, writes into every container and caller-buffer layout. Omitted against explicit start / step of range, omitted start of linspace. A stride-ignoring slot writer shows as a wrong result in the strided / reversed layouts (room behind the lane). The collectors on ten element types (collectors-typed), the optional collector on types without a null. Every iterator shape advanced by nth(j): length, items and write afterwards.",
  "C20": " Beyond the small scope: winsorize on structured series and modular permutations of 17..64 elements; AR(1)-type paths for half_life. winsorize on i32 values whose sum leaves the type. Spearman translation relation on i64 series around +-2^60.",
 }
 REASONS_PENDING = "check not built yet in this commit (planned, see DESIGN.md section 4); machinery for it (back-end matrix visitors, encodings) exists in mc-adapt"
